@@ -360,9 +360,16 @@ class ExcelOpxWrapper(ExcelWrapper):
 
             if address.is_unbounded_range:
                 # bound the address range to the data in the spreadsheet
-                address = address & AddressRange(
-                    (1, 1, *self.max_col_row(sheet.title)),
-                    sheet=sheet.title)
+                max_col, max_row = self.max_col_row(sheet.title)
+                bounded = address & AddressRange(
+                    (1, 1, max_col, max_row), sheet=sheet.title)
+                if not is_address(bounded):
+                    # all of it lies beyond the data, these cells are empty
+                    bounded = AddressRange((
+                        address.start.col_idx or 1, address.start.row or 1,
+                        address.end.col_idx or max_col,
+                        address.end.row or max_row), sheet=sheet.title)
+                address = bounded
 
             cells = sheet[address.coordinate]
             cells_dataonly = sheet_dataonly[address.coordinate]
